@@ -153,6 +153,103 @@ func C03(c *core.Ctx) {
 		c.Ob("C03-R2", fd.Name()+"#"+s.field+"-rounded-by-rule", last.Pos(), ok,
 			"the "+s.field+" that feeds the document sums is not last assigned from tax.ApplyRoundingRule: under the 'currency' rule it keeps hidden decimals, so the presented figures do not re-add")
 	}
+	// R2 (line level): the base a percentage line discount/charge is taken of is the
+	// rule-rounded line sum or is itself last rounded by the rule
+	for _, name := range []string{"calculateLineDiscounts", "calculateLineCharges"} {
+		fd := p.Func("bill", "", name)
+		if fd == nil {
+			c.Ob("C03-R2", "UNRESOLVED:bill."+name, token.NoPos, false, "function not found")
+			continue
+		}
+		info := fd.Pkg.TypesInfo
+		sig := fd.Obj.Type().(*types.Signature)
+		n := 0
+		for _, call := range core.CallsTo(info, fd.Decl.Body, func(f *types.Func) bool {
+			return f.Name() == "Of" && core.RecvNamed(f) != nil && core.RecvNamed(f).Obj().Name() == "Percentage"
+		}) {
+			n++
+			key := fmt.Sprintf("%s#percent-base%d", fd.Name(), n)
+			bv := core.VarOf(info, call.Args[0])
+			if bv == nil {
+				c.Undecided("C03-R2", key, call.Pos(), "the percentage base is not a local variable")
+				continue
+			}
+			defs := core.ReachingDefs(info, fd.Decl.Body, bv, call)
+			ok, why := len(defs) > 0, "no reaching definition found"
+			for d := range defs {
+				if d == nil {
+					ok, why = false, "the base may be unassigned"
+					continue
+				}
+				rhs := ast.Unparen(d.Rhs[0])
+				if cl, isC := rhs.(*ast.CallExpr); isC && isApply(core.Callee(info, cl)) {
+					continue
+				}
+				if pv := core.VarOf(info, rhs); pv != nil {
+					isParam := false
+					for i := 0; i < sig.Params().Len(); i++ {
+						if sig.Params().At(i) == pv && pv.Name() == "sum" {
+							isParam = true
+						}
+					}
+					if isParam {
+						continue
+					}
+				}
+				ok, why = false, fmt.Sprintf("it may come from `%s` at %s", types.ExprString(rhs), p.Rel(d.Pos()))
+			}
+			c.Ob("C03-R2", key, call.Pos(), ok,
+				"the base of a percentage line discount/charge is neither the rule-rounded line sum nor last assigned from tax.ApplyRoundingRule ("+why+"): under the 'currency' rule the amount keeps hidden decimals and line total != sum - discounts + charges as presented")
+		}
+		if n == 0 {
+			c.Ob("C03-R2", fd.Name()+"#percent-base", fd.Decl.Pos(), false, "no percentage amount computed here")
+		}
+		// the sum handed in is the rule-rounded one
+		for _, cf := range p.Funcs(p.Pkg("bill")) {
+			cinfo := cf.Pkg.TypesInfo
+			for _, call := range core.CallsTo(cinfo, cf.Decl.Body, func(f *types.Func) bool { return f == fd.Obj }) {
+				idx := -1
+				for i := 0; i < sig.Params().Len(); i++ {
+					if sig.Params().At(i).Name() == "sum" {
+						idx = i
+					}
+				}
+				okSum := false
+				if idx >= 0 && idx < len(call.Args) {
+					if sv := core.VarOf(cinfo, call.Args[idx]); sv != nil {
+						defs := core.ReachingDefs(cinfo, cf.Decl.Body, sv, call)
+						okSum = len(defs) > 0
+						for d := range defs {
+							if d == nil {
+								okSum = false
+								continue
+							}
+							if cl, isC := ast.Unparen(d.Rhs[0]).(*ast.CallExpr); !isC || !isApply(core.Callee(cinfo, cl)) {
+								okSum = false
+							}
+						}
+					}
+				}
+				c.Ob("C03-R2", fmt.Sprintf("%s#sum-arg-of:%s", cf.Name(), name), call.Pos(), okSum,
+					"the sum handed to the line discount/charge calculation is not last assigned from tax.ApplyRoundingRule")
+			}
+		}
+	}
+	// R4: sums keep the precision the rule chose for them
+	c.Rule("C03-R4", "running sums are the receiver of Add: the sum's (rule-chosen) precision is kept, not the addend's", 20)
+	for _, rel := range []string{"bill", "tax"} {
+		pk := p.Pkg(rel)
+		if pk == nil {
+			c.Ob("C03-R4", "UNRESOLVED:"+rel, token.NoPos, false, "package not loaded")
+			continue
+		}
+		for _, fd := range p.Funcs(pk) {
+			for i, a := range FindAccums(p, fd) {
+				c.Ob("C03-R4", fmt.Sprintf("%s#%s%d:%s", fd.Name(), strings.ToLower(a.Op), i+1, types.ExprString(a.Dest)), a.Assign.Pos(), !a.Reversed,
+					fmt.Sprintf("the running sum is added to the addend (%s.Add(%s)): Amount.Add keeps the receiver's exponent, so under the 'currency' rule the sum keeps the addend's hidden decimals and figures derived from it no longer match the presented ones", types.ExprString(a.Addend), types.ExprString(a.Dest)))
+			}
+		}
+	}
 	// R3
 	roundCoverage(c, "C03-R3")
 	c03LineRounding(c)
